@@ -33,20 +33,23 @@ const (
 	TGrowArmed
 	TShrinkArmed
 	TFullChain // the target chain is exactly full but the table is below the load factor: the next insert appends a bucket
-	TLongChain // 99 bystander keys collide in the target chain (20-33 buckets long)
+	TLongChain // 209 bystander keys collide in the target chain (42-70 buckets long)
 )
 
 var tableNames = [...]string{"plain", "chain2", "growArmed", "shrinkArmed", "fullChain", "longChain"}
 
 const (
-	fillTarget = 100 // key indices 100.. : fillers in the target chain
-	fillSpread = 200 // key indices 200.. : fillers spread over the other buckets
+	fillTarget = 100   // key indices 100.. : fillers in the target chain
+	fillSpread = 200   // key indices 200.. : fillers spread over the other buckets
+	fillLong   = 10000 // key indices 10000.. : more fillers in the target chain (very long chains)
 )
 
 func layoutFor(rel KeyRel) Layout {
 	return Layout{
 		Bucket: func(k int) uint64 {
 			switch {
+			case k >= fillLong:
+				return 0
 			case k >= fillSpread:
 				j := uint64(k - fillSpread)
 				return 1 + j%31 + ((j/31)%2)<<5
@@ -68,6 +71,8 @@ func layoutFor(rel KeyRel) Layout {
 		},
 		Tag: func(k int) uint64 {
 			switch {
+			case k >= fillLong:
+				return uint64(k-fillLong)%90 + 30
 			case k >= fillSpread:
 				return uint64(k-fillSpread)%100 + 20
 			case k >= fillTarget:
@@ -281,6 +286,10 @@ func (ms *MapScen) setupRaw(out *MapLike) MState {
 		for j := 50; j < 99; j++ {
 			m.Store(fillTarget+j, 1000+j)
 		}
+		// ... and 110 more: 209 bystanders in one chain (42-70 buckets)
+		for j := 0; j < 110; j++ {
+			m.Store(fillLong+j, 3000+j)
+		}
 	case TFullChain:
 		putKeys()
 		nf := (slots - inTarget%slots) % slots
@@ -378,6 +387,9 @@ func (r rangeOut) String() string {
 }
 
 func fillerValue(k int) int {
+	if k >= fillLong {
+		return 3000 + k - fillLong
+	}
 	if k >= fillSpread {
 		return 2000 + k - fillSpread
 	}
